@@ -207,6 +207,50 @@ impl Ctx {
         }
     }
 
+    /// components carrying several signatures: a bad one among good ones, in every position, is never accepted
+    fn several_signatures(&mut self, key: &SignedSecretKey, other: &SignedSecretKey, cls: &str) {
+        use pgp::packet::{Packet, PacketParser};
+        let pk = SignedPublicKey::from(key.clone());
+        let opk = SignedPublicKey::from(other.clone());
+        let reparse = |sig: &pgp::packet::Signature, flip_from_end: usize| -> Option<pgp::packet::Signature> {
+            let mut w = Packet::from(sig.clone()).to_bytes().ok()?; let n = w.len(); w[n - 1 - flip_from_end] ^= 0x10;
+            match PacketParser::new(&w[..]).next()?.ok()? { Packet::Signature(s) => Some(s), _ => None }
+        };
+        // subkeys
+        if let (Some(sub), Some(osub)) = (pk.public_subkeys.first(), opk.public_subkeys.first()) {
+            if let (Some(good), Some(foreign)) = (sub.signatures.first().cloned(), osub.signatures.first().cloned()) {
+                let mut bads: Vec<(&str, pgp::packet::Signature)> = vec![("foreign-binding", foreign)];
+                if let Some(b) = reparse(&good, 3) { bads.push(("value-bit", b)); }
+                for (bn, bad) in bads {
+                    for (on, order) in [("good-bad", vec![good.clone(), bad.clone()]), ("bad-good", vec![bad.clone(), good.clone()]), ("good-good-bad", vec![good.clone(), good.clone(), bad.clone()]), ("bad", vec![bad.clone()])] {
+                        let mut p2 = pk.clone(); p2.public_subkeys[0].signatures = order;
+                        let acc = guarded(|| p2.verify_bindings().is_ok()).unwrap_or(true);
+                        // ... and through the wire
+                        let acc2 = guarded(|| p2.to_bytes().ok().and_then(|b| SignedPublicKey::from_bytes(&b[..]).ok()).map(|p| p.verify_bindings().is_ok())).ok().flatten().unwrap_or(false);
+                        self.out.case("", &[], &["several-signatures".into(), cls.into(), "subkey".into(), bn.into(), on.into()], &format!("accepted={} after-reparse={}", acc as u8, acc2 as u8), Some(!acc && !acc2), &format!("{cls}-subkey-several-{on}"));
+                    }
+                }
+                let mut p2 = pk.clone(); p2.public_subkeys[0].signatures = vec![good.clone(), good.clone()];
+                let acc = guarded(|| p2.verify_bindings().is_ok()).unwrap_or(false);
+                self.out.case("", &[], &["several-signatures".into(), cls.into(), "subkey".into(), "none".into(), "good-good".into()], &format!("accepted={}", acc as u8), Some(acc), &format!("{cls}-subkey-several-control"));
+            }
+        }
+        // user ids
+        if let (Some(u), Some(ou)) = (pk.details.users.first(), opk.details.users.first()) {
+            if let (Some(good), Some(foreign)) = (u.signatures.first().cloned(), ou.signatures.first().cloned()) {
+                let mut bads: Vec<(&str, pgp::packet::Signature)> = vec![("foreign-certification", foreign)];
+                if let Some(b) = reparse(&good, 3) { bads.push(("value-bit", b)); }
+                for (bn, bad) in bads {
+                    for (on, order) in [("good-bad", vec![good.clone(), bad.clone()]), ("bad-good", vec![bad.clone(), good.clone()]), ("bad", vec![bad.clone()])] {
+                        let mut p2 = pk.clone(); p2.details.users[0].signatures = order;
+                        let acc = guarded(|| p2.verify_bindings().is_ok()).unwrap_or(true);
+                        self.out.case("", &[], &["several-signatures".into(), cls.into(), "userid".into(), bn.into(), on.into()], &format!("accepted={}", acc as u8), Some(!acc), &format!("{cls}-userid-several-{on}"));
+                    }
+                }
+            }
+        }
+    }
+
     /// certificate: every bit of the transferable public key; verify_bindings must fail or the cert must be unchanged in its signed parts
     fn certificate(&mut self, key: &SignedSecretKey, cls: &str) {
         let pk = SignedPublicKey::from(key.clone());
@@ -400,6 +444,8 @@ fn main() {
     }
     cx.certificate(&gen_key_with_subkey(KeyVersion::V4, 210), "cert-v4");
     cx.certificate(&gen_key_with_subkey(KeyVersion::V6, 211), "cert-v6");
+    cx.several_signatures(&gen_key_with_subkey(KeyVersion::V4, 210), &gen_key_with_subkey(KeyVersion::V4, 212), "cert-v4");
+    cx.several_signatures(&gen_key_with_subkey(KeyVersion::V6, 211), &gen_key_with_subkey(KeyVersion::V6, 213), "cert-v6");
     cx.keysigs(KeyVersion::V4, KeyType::Ed25519Legacy, 220, "keysig-v4-eddsa");
     cx.keysigs(KeyVersion::V6, KeyType::Ed25519, 222, "keysig-v6-ed25519");
     if thorough {
